@@ -7,9 +7,12 @@ ROOT = os.path.dirname(os.path.dirname(os.path.abspath(__file__)))
 sys.path.insert(0, ROOT)
 from lacecheck import extract, alias
 fdir, _ = extract.extract("dev")
-fns = {}
+fns, adts = {}, {}
 for f in ("lace-lib.json", "lace-bin.json"):
-    fns.update(json.load(open(os.path.join(fdir, f)))["fns"])
+    d = json.load(open(os.path.join(fdir, f)))
+    fns.update(d["fns"])
+    adts.update(d.get("adts", {}))
 snap = alias.snapshot(fns)
+snap[alias.FIELDS_KEY] = alias.field_snapshot(adts, fns)
 json.dump(snap, open(alias.ANCHORS, "w"), indent=0, sort_keys=True)
 print("%d reference functions written to %s" % (len(snap), alias.ANCHORS))
